@@ -255,9 +255,12 @@ func runC13(h *Harness) {
 	{
 		cs = nil
 		var extra []*Task
+		// two locations nobody has used yet: their first load (download, staging, activation) races the shutdown
+		l5 := w.NewLocation(LocOpts{Name: "L5", URL: "http://crl5.sim/e.crl", Issuer: w.A, NVers: 1, Extra: Pick(tp, 2, 40), Width: 12, Base: 5})
+		l6 := w.NewLocation(LocOpts{Name: "L6", URL: "http://crl6.sim/f.crl", Issuer: w.B, NVers: 1, Extra: 2, Width: 13, Base: 6})
 		for i := 0; i < nclients; i++ {
 			n := nodes[tp.Int(len(nodes))]
-			cs = append(cs, spawn(n, Pick(tp, l1, l2), Pick(tp, "common", "never"), nil))
+			cs = append(cs, spawn(n, Pick(tp, l1, l2, l5, l5, l6), Pick(tp, "common", "never"), nil))
 		}
 		for _, n := range nodes {
 			nn := n
